@@ -158,7 +158,9 @@ def parse_verus(path, mapf, rc, so, se):
         # Verus reached the verification stage (result JSON present, no VIR error): every remaining error is a failed
         # obligation, except solver-budget messages
         is_res = any(p in msg for p in RESOURCE_PATTERNS)
-        is_ver = not is_res
+        # a diagnostic with a rustc error code (E0599 ...) is a compile error of the extracted text: unsupported / unknown item, undecided
+        is_rustc = bool(d.get("code"))
+        is_ver = not is_res and not is_rustc
         it, repo_line = locate(line)
         ent = {
             "message": msg,
